@@ -112,6 +112,8 @@ def make_harness(kind, edges, funcs, cfi_at):
         out0 = sorted(((e.target, e.label.type, e.label.conditional) for e in blk.outgoing_edges), key=repr) if kind == "code" else []
         with make_modify_cache(m, fl) as cache:
             blk._offset, blk._size = SymInt(o), SymInt(s)
+            if (kind == "data" or (edges == "fallthrough" and not funcs)) and ctx.choose(2, "previous-block-is-empty"):
+                prev._size = 0               # a zero-sized block (e.g. one that only carries a symbol) directly in front of the block
             head, tail, ft = SP.split_block(cache, blk, SymInt(k))
             ctx.cover("split")
             P = ctx.prove
@@ -119,7 +121,7 @@ def make_harness(kind, edges, funcs, cfi_at):
             P(tag + "/G/head-geometry", z3.And(z3.BoolVal(head is blk), zint(blk.offset) == o, zint(blk.size) == k))
             P(tag + "/G/tail-geometry", z3.And(z3.BoolVal(type(tail) is type(blk) and tail.byte_interval is bi and tail is not blk),
                                              zint(tail.offset) == o + k, zint(tail.size) == s - k))
-            P(tag + "/G/contents-and-other-blocks-untouched", z3.BoolVal(bi.contents is contents0 and nxt.offset == 5 and nxt.size == 2 and prev.offset == 0 and prev.size == 1))
+            P(tag + "/G/contents-and-other-blocks-untouched", z3.BoolVal(bi.contents is contents0 and nxt.offset == 5 and nxt.size == 2 and prev.offset == 0 and prev.size in (0, 1)))
             rc = cache.reference_cache
             P(tag + "/L/start-label-stays-on-the-head", z3.BoolVal(rc.get_referent(s_start) is blk and not s_start.at_end))
             P(tag + "/L/end-label-moves-to-the-tail-as-an-end-label", z3.BoolVal(rc.get_referent(s_end) is tail and s_end.at_end))
@@ -209,7 +211,7 @@ def replay_split(kind, edges, funcs, cfi_at):
             return model[kx[0]] if kx else d
         size = 4
         bad = []
-        for k in sorted({max(0, min(val("split_offset", 2), size)), 0, size, 2}):
+        for k, prev_empty in [(k_, pe) for k_ in sorted({max(0, min(val("split_offset", 2), size)), 0, size, 2}) for pe in (False, True)]:
             ir, m, bi, prev, blk, nxt, tgt, s_start, s_end, fl = build(kind, edges, funcs)
             comments = {gtirb.Offset(blk, i): "c%d" % i for i in range(size)}
             _auxdata.comments.set(m, dict(comments))
@@ -219,9 +221,12 @@ def replay_split(kind, edges, funcs, cfi_at):
                 cfi[gtirb.Offset(blk, k)] = list(special)
             _auxdata.cfi_directives.set(m, cfi)
             with make_modify_cache(m, fl) as cache:
+                if prev_empty:
+                    prev.size = 0            # a zero-sized block directly in front (ordering fixed when the cache was built)
                 head, tail, ft = SP.split_block(cache, blk, k)
-            if (blk.size, tail.offset, tail.size) != (k, 1 + k, size - k):
-                bad.append("k=%d geometry %s" % (k, (blk.size, tail.offset, tail.size)))
+            if head is not blk or (blk.size, tail.offset, tail.size) != (k, 1 + k, size - k):
+                bad.append("k=%d%s geometry: head is %s, sizes %s" % (k, " (empty predecessor)" if prev_empty else "", "the block" if head is blk else "ANOTHER block", (blk.size, tail.offset, tail.size)))
+                continue
             if s_start.referent is not blk or s_start.at_end or s_end.referent is not tail or not s_end.at_end:
                 bad.append("k=%d labels" % k)
             got = {(("head" if kx.element_id is blk else "tail"), kx.displacement): v for kx, v in _auxdata.comments.get(m).items()}
